@@ -135,6 +135,11 @@ type Injection struct {
 	Event int    // index into the op's recorded events (as seen in a baseline run)
 	Errno int    // errno to return
 	Name  string // expected syscall name (sanity: a run whose injection hits another call is discarded)
+	// an optional second fault: the ThenNth-th recorded call named ThenName AFTER the first injection hit fails with ThenErrno
+	// (what the code does after the first fault is not known from a baseline run, so the second one is addressed by name and count)
+	ThenName  string
+	ThenNth   int
+	ThenErrno int
 }
 
 type Result struct {
@@ -143,6 +148,7 @@ type Result struct {
 	ExitCode  int
 	Signal    int
 	InjectHit bool
+	ThenHit   bool
 	Unknown   []string // syscalls outside the table that reference the sandbox (case becomes inconclusive)
 }
 
@@ -270,6 +276,7 @@ func run(argv []string, opt Options) (*Result, error) {
 	}
 	pendingEntry := map[int]*Event{} // tid -> event recorded at entry, completed at exit
 	injectExit := map[int]int{}      // tid -> errno to set at exit
+	thenCount := 0
 	root := filepath.Clean(opt.SandboxRoot)
 	resolveFD := func(fd int64) (string, uint64, bool) {
 		p, err := os.Readlink(fmt.Sprintf("/proc/%d/fd/%d", pid, fd))
@@ -386,6 +393,20 @@ func run(argv []string, opt Options) (*Result, error) {
 				pendingEntry[tid] = ev
 				if opt.OnEvent != nil {
 					opt.OnEvent(cur.Index, ev)
+				}
+				if inj := opt.Inject; inj != nil && res.InjectHit && !res.ThenHit && inj.ThenName != "" && inj.Op == cur.Index && ev.Name == inj.ThenName {
+					thenCount++
+					if thenCount == inj.ThenNth {
+						res.ThenHit = true
+						var regs syscall.PtraceRegs
+						if syscall.PtraceGetRegs(tid, &regs) == nil {
+							regs.Orig_rax = ^uint64(0)
+							if syscall.PtraceSetRegs(tid, &regs) == nil {
+								injectExit[tid] = inj.ThenErrno
+								ev.Injected = syscall.Errno(inj.ThenErrno).Error()
+							}
+						}
+					}
 				}
 				if inj := opt.Inject; inj != nil && !res.InjectHit && inj.Op == cur.Index && inj.Event == ev.Seq {
 					res.InjectHit = true
